@@ -30,6 +30,12 @@ func Typecheck(processes []*Process, assumedFreeNames []Name, globalEnv *GlobalE
 
 func typecheckFunctionsAndProcesses(processes []*Process, assumedFreeNames []Name, globalEnv *GlobalEnvironment, errorChan chan error, doneChan chan bool) {
 	defer func() {
+		if r := recover(); r != nil {
+			// An internal failure is an error, never a successful typecheck
+			errorChan <- fmt.Errorf("internal typechecker error: %v", r)
+			return
+		}
+
 		// No error found, notify parent
 		doneChan <- true
 	}()
